@@ -85,7 +85,9 @@ func checkVocabulary(c Case, t *refterm.Term) string {
 	return ""
 }
 
-func run(c Case) string {
+var run = harness.Confirm(runOnce, 2)
+
+func runOnce(c Case) string {
 	s, err := vxdrive.Start(c.Cols, c.Rows, c.Caps, c.Opts)
 	if err != nil {
 		return "vaxis.New failed: " + err.Error()
